@@ -1,15 +1,174 @@
 /-
-  Proofs/C07.lean — expressions evaluate as Ink specifies (theorems about Ink/Native.lean,
-  Ink/InkList.lean and Ink/Expr.lean).
+  Proofs/C07.lean — expressions over numbers, strings and lists evaluate as Ink specifies.
+
+  The evaluator the theorems speak about is `Expr.eval` (Ink/Expr.lean): an expression tree is
+  evaluated with the operators of Ink/Native.lean.  checks/c07.py compares it with compile+play
+  on the real code for every generated tree.
+
+  * numbers: 32-bit integers, division truncates, modulo has the sign of the dividend, the
+    coercion ladder bool → int → float → string, comparisons, logic, MIN / MAX;
+  * strings: concatenation (any scalar + string), containment;
+  * lists: union / difference / intersection / has as set operations on the keys, LIST_COUNT,
+    LIST_MIN / LIST_MAX as extrema of the total order (value, origin, name);
+  * order independence: the value of every expression tree, its printed form and any fault it
+    raises are independent of the (hash) order of the items of the list values involved
+    (`order_independent`, from Proofs/Lemmas/ListPerm.lean and NativePerm.lean).
 -/
-import Ink.Expr
+import Proofs.Lemmas.NativePerm
 
 namespace Ink
 namespace C07
 
-/-- Integer addition wraps to 32 bits. -/
+open InkList
+
+/-! ### numbers -/
+
 theorem int_add (defs : ListDefs) (x y : Int) :
-    Native.call defs .add [.val (.int x), .val (.int y)] = .ok (.val (.int (wrapI32 (x + y)))) := by
+    Native.call defs .add [.val (.int x), .val (.int y)] = .ok (.val (.int (wrapI32 (x + y)))) := rfl
+
+theorem int_sub (defs : ListDefs) (x y : Int) :
+    Native.call defs .subtract [.val (.int x), .val (.int y)] = .ok (.val (.int (wrapI32 (x - y)))) := rfl
+
+theorem int_mul (defs : ListDefs) (x y : Int) :
+    Native.call defs .multiply [.val (.int x), .val (.int y)] = .ok (.val (.int (wrapI32 (x * y)))) := rfl
+
+/-- Integer division truncates toward zero. -/
+theorem int_div (defs : ListDefs) (x y : Int) (hy : y ≠ 0) (ho : ¬(x = i32Min ∧ y = -1)) :
+    Native.call defs .divide [.val (.int x), .val (.int y)] = .ok (.val (.int (Int.tdiv x y))) := by
+  have : ¬(y = 0 ∨ (x = i32Min ∧ y = -1)) := by
+    intro h; cases h with
+    | inl h => exact hy h
+    | inr h => exact ho h
+  simp [Native.call, Op.arity, Native.isList, Native.coerceAll, Native.destType, Val.castOrdinal, Val.cast,
+    Native.binary, this]
+
+/-- Modulo is the remainder of the truncating division (sign of the dividend). -/
+theorem int_mod (defs : ListDefs) (x y : Int) (hy : y ≠ 0) (ho : ¬(x = i32Min ∧ y = -1)) :
+    Native.call defs .mod [.val (.int x), .val (.int y)] = .ok (.val (.int (Int.tmod x y))) := by
+  have : ¬(y = 0 ∨ (x = i32Min ∧ y = -1)) := by
+    intro h; cases h with
+    | inl h => exact hy h
+    | inr h => exact ho h
+  simp [Native.call, Op.arity, Native.isList, Native.coerceAll, Native.destType, Val.castOrdinal, Val.cast,
+    Native.binary, this]
+
+theorem int_div_mod_law (x y : Int) : y * Int.tdiv x y + Int.tmod x y = x := Int.mul_tdiv_add_tmod x y
+
+theorem int_compare (defs : ListDefs) (x y : Int) :
+    Native.call defs .less [.val (.int x), .val (.int y)] = .ok (.val (.bool (decide (x < y)))) ∧
+    Native.call defs .greater [.val (.int x), .val (.int y)] = .ok (.val (.bool (decide (x > y)))) ∧
+    Native.call defs .lessEq [.val (.int x), .val (.int y)] = .ok (.val (.bool (decide (x ≤ y)))) ∧
+    Native.call defs .greaterEq [.val (.int x), .val (.int y)] = .ok (.val (.bool (decide (x ≥ y)))) ∧
+    Native.call defs .equal [.val (.int x), .val (.int y)] = .ok (.val (.bool (x == y))) ∧
+    Native.call defs .notEquals [.val (.int x), .val (.int y)] = .ok (.val (.bool (x != y))) :=
+  ⟨rfl, rfl, rfl, rfl, rfl, rfl⟩
+
+theorem int_min_max (defs : ListDefs) (x y : Int) :
+    Native.call defs .min [.val (.int x), .val (.int y)] = .ok (.val (.int (if x ≤ y then x else y))) ∧
+    Native.call defs .max [.val (.int x), .val (.int y)] = .ok (.val (.int (if x ≥ y then x else y))) :=
+  ⟨rfl, rfl⟩
+
+/-- int op float: the int operand is converted to float first (for every binary operator). -/
+theorem int_float_coercion (defs : ListDefs) (op : Op) (x : Int) (f : Float32) :
+    Native.call defs op [.val (.int x), .val (.float f)]
+      = Native.call defs op [.val (.float (F32.ofI32 x)), .val (.float f)] ∧
+    Native.call defs op [.val (.float f), .val (.int x)]
+      = Native.call defs op [.val (.float f), .val (.float (F32.ofI32 x))] := by
+  cases op <;> exact ⟨rfl, rfl⟩
+
+/-- bool op int: `true` is 1 and `false` is 0. -/
+theorem bool_int_coercion (defs : ListDefs) (op : Op) (b : Bool) (y : Int) :
+    Native.call defs op [.val (.bool b), .val (.int y)]
+      = Native.call defs op [.val (.int (if b then 1 else 0)), .val (.int y)] := by
+  cases op <;> rfl
+
+/-! ### strings -/
+
+theorem string_concat (defs : ListDefs) (a b : String) :
+    Native.call defs .add [.val (.str a), .val (.str b)] = .ok (.val (.str (a ++ b))) := rfl
+
+/-- scalar + string prints the scalar and concatenates. -/
+theorem scalar_string_concat (defs : ListDefs) (x : Int) (f : Float32) (s : String) :
+    Native.call defs .add [.val (.int x), .val (.str s)] = .ok (.val (.str (intToString x ++ s))) ∧
+    Native.call defs .add [.val (.str s), .val (.int x)] = .ok (.val (.str (s ++ intToString x))) ∧
+    Native.call defs .add [.val (.float f), .val (.str s)] = .ok (.val (.str (F32.display f ++ s))) :=
+  ⟨rfl, rfl, rfl⟩
+
+theorem string_has (defs : ListDefs) (a b : String) :
+    Native.call defs .has [.val (.str a), .val (.str b)] = .ok (.val (.bool (strContains a b))) ∧
+    Native.call defs .hasnt [.val (.str a), .val (.str b)] = .ok (.val (.bool (!strContains a b))) :=
+  ⟨rfl, rfl⟩
+
+/-! ### lists as sets -/
+
+/-- Union: an item is in `a + b` with the value it has in `b`, else with the value it has in `a`. -/
+theorem list_union (a b : InkList) (hb : KeysNodup b.items) (k : ListItem) :
+    lookup (a.union b).items k = match lookup b.items k with
+      | some v => some v
+      | none => lookup a.items k := lookup_union hb k
+
+/-- Difference: `a - b` keeps exactly the items of `a` that are not in `b`. -/
+theorem list_difference (a b : InkList) (k : ListItem) :
+    lookup (a.without b).items k = if (lookup b.items k).isSome then none else lookup a.items k :=
+  lookup_without a b k
+
+/-- Intersection: `a ^ b` keeps exactly the items of `a` that are in `b`. -/
+theorem list_intersection (a b : InkList) (k : ListItem) :
+    lookup (a.intersect b).items k = if (lookup b.items k).isSome then lookup a.items k else none :=
+  lookup_intersect' a b k
+
+/-- `a ? b`: both non-empty and every item of `b` is in `a`. -/
+theorem list_has (a b : InkList) :
+    a.contains b = true ↔ (b.items ≠ [] ∧ a.items ≠ [] ∧ ∀ kv ∈ b.items, a.containsKey kv.1 = true) := by
+  unfold InkList.contains
+  cases hb : b.items <;> cases ha : a.items <;> simp [List.all_eq_true]
+
+theorem list_count (defs : ListDefs) (l : InkList) :
+    Native.call defs .count [.val (.list l)] = .ok (.val (.int l.items.length)) := rfl
+
+/-- LIST_MAX / LIST_MIN pick the extremum of the total order (value, origin name, item name). -/
+theorem list_max_is_greatest (l : InkList) (m : ListItem × Int) (h : l.maxItem = some m) :
+    m ∈ l.items ∧ ∀ x ∈ l.items, itemLt m x = false := ⟨maxItem_mem h, maxItem_ge h⟩
+
+theorem list_min_is_least (l : InkList) (m : ListItem × Int) (h : l.minItem = some m) :
+    m ∈ l.items ∧ ∀ x ∈ l.items, itemLt x m = false := ⟨minItem_mem h, minItem_le h⟩
+
+/-- The printed form lists the items in the total order, whatever order they are stored in. -/
+theorem list_display_sorted (l : InkList) :
+    l.ordered.Perm l.items ∧ l.ordered.Pairwise (fun x y => itemLt y x = false) :=
+  ⟨ordered_perm_self l, ordered_sorted l⟩
+
+/-! ### independence of the order items were added -/
+
+/-- Every operator: arguments that differ only in item / origin order give results that differ only
+    in item / origin order (and equal results when the result is not a list). -/
+theorem call_order_independent {defs : ListDefs} (hd : DefsFunctional defs) (op : Op) {ps ps' : List Obj}
+    (h : List.Forall₂ Obj.Equiv ps ps') (hw : ∀ p ∈ ps, ∀ v, p = .val v → v.WF)
+    (hw' : ∀ p ∈ ps', ∀ v, p = .val v → v.WF) :
+    Out.Equiv Obj.Equiv (Native.call defs op ps) (Native.call defs op ps') :=
+  Native.call_equiv hd op h hw hw'
+
+/-- Whole expression trees: the value (up to item order), its printed text and any fault are
+    independent of the order in which the items of the variables' list values are stored. -/
+theorem order_independent {defs : ListDefs} (hd : DefsFunctional defs)
+    {env env' : List (String × Val)} (he : EnvEquiv env env') (hw : EnvWF env) (hw' : EnvWF env')
+    {e : Expr} (hl : e.LitWF) :
+    (∀ v, e.eval defs env = .ok v →
+      ∃ v', e.eval defs env' = .ok v' ∧ v'.display = v.display ∧ Val.Equiv v v') ∧
+    (∀ k m, e.eval defs env = .err k m → e.eval defs env' = .err k m) ∧
+    (∀ s, e.eval defs env = .panic s → e.eval defs env' = .panic s) :=
+  Expr.eval_order_independent hd he hw hw' hl
+
+/-- Results stay well-formed (unique keys), so the theorem above composes along a whole story. -/
+theorem eval_wellformed (defs : ListDefs) {env : List (String × Val)} (hw : EnvWF env) {e : Expr}
+    (hl : e.LitWF) {v : Val} (h : e.eval defs env = .ok v) : v.WF :=
+  Expr.eval_wf defs hw hl h
+
+/-! ### non-vacuity -/
+
+example : Native.call [] .divide [.val (.int (-7)), .val (.int 2)] = .ok (.val (.int (-3))) := by rfl
+example : Native.call [] .mod [.val (.int (-7)), .val (.int 2)] = .ok (.val (.int (-1))) := by rfl
+example : Native.call [] .add [.val (.bool true), .val (.int 2147483647)] = .ok (.val (.int (-2147483648))) := by
   rfl
 
 end C07
